@@ -503,7 +503,7 @@ func ruleConverters(c *Ctx) {
 
 // ruleSettingsTotal (C19-TOTAL): nothing reachable from the settings parser can panic.
 func ruleSettingsTotal(c *Ctx) {
-	root := c.P.SSAFunc("internal/server", "parseSettingsFromRaw")
+	var root *ssa.Function
 	if root == nil {
 		// role fallback: any function (serverSettings, interface{}) serverSettings
 		for _, f := range c.P.ModuleFuncs() {
